@@ -27,6 +27,12 @@ def apply_variant(repo_root: Path, scratch: Path, v: dict) -> Tuple[bool, str]:
     if docs.is_dir():
         (scratch / "docs").mkdir()
         shutil.copytree(docs, scratch / "docs" / "loading-and-dumping")
+    if v.get("patch"):
+        # a saved seeded change (/verif/seeded/<id>-<name>/patch.diff, a git diff relative to the repository root)
+        p = subprocess.run(["git", "apply", "--include=src/adaptix/*", str(v["patch"])], cwd=str(scratch), capture_output=True, text=True)
+        if p.returncode != 0:
+            return False, f"patch does not apply: {p.stderr.strip()[:200]}"
+        return True, ""
     for edit in v["edits"]:
         f = scratch / "src" / "adaptix" / "_internal" / edit["file"]
         if not f.exists():
@@ -75,7 +81,14 @@ def run_variant(args) -> dict:
 def main(args) -> int:
     from .variants import VARIANTS
     repo_root = args.repo
-    sel = [v for v in VARIANTS if not args.filter or args.filter in v["name"] or args.filter == v["property"]]
+    allv = list(VARIANTS)
+    seeded = HERE.parent / "seeded"
+    if seeded.is_dir():
+        # every confirmed seeded change is a variant too: the check of its property must report a violation
+        for d in sorted(seeded.iterdir()):
+            if (d / "patch.diff").is_file():
+                allv.append({"name": "seed:" + d.name, "property": d.name.split("-")[0], "patch": d / "patch.diff", "expect": "rule="})
+    sel = [v for v in allv if not args.filter or args.filter in v["name"] or args.filter == v["property"]]
     t0 = time.time()
     with ProcessPoolExecutor(max_workers=args.jobs) as ex:
         results = list(ex.map(run_variant, [(v, repo_root, "quick") for v in sel]))
